@@ -514,6 +514,8 @@ def truth(ctx, v):
         if isinstance(c, DictCell):
             if c.sym is None:
                 return z3.BoolVal(len(c.items) > 0)
+            if getattr(c, 'nonempty', None) is not None:
+                return c.nonempty
             raise Unsupported('truthiness of symbolic dict')
         return z3.BoolVal(True)
     if isinstance(v, VMatch):
